@@ -581,6 +581,7 @@ Proof.
     destruct (sg_delivered x); [intro K; injection K as <- _; reflexivity|].
     destruct (_ && _ && _); [intro K; injection K as <- _; reflexivity|].
     destruct (sg_probe x); intro K; injection K as <- _; reflexivity. }
+  clear Ep.
   assert (Hloop : forall fuel nagle ss segs rem rwr ss' segs' rem',
             segment_loop fuel nagle ss segs rem rwr = Some (ss', segs', rem') -> ss_snd_una segs' = ss_snd_una segs).
   { induction fuel as [|x fuel IH]; intros nagle ss segs rem rwr ss' segs' rem' K; cbn [segment_loop] in K.
